@@ -60,6 +60,8 @@ type Spec struct {
 	QRecl   map[int64]int64 // Queue.Spec.Reclaimable: 0 nil, 1 true, 2 false
 	Tiers   [][]Plug
 	Actions []int64 // 1 preempt, 2 reclaim
+	Faults  [][2]int64 // (task, node): the allocate event handler reports Event.Err for this placement
+	Refuse  []int64    // cache.Evict refuses these tasks
 }
 
 const EpsUnits = 2
@@ -113,6 +115,12 @@ func (c Spec) Enc() []int64 {
 	}
 	out = append(out, int64(len(c.Actions)))
 	out = append(out, c.Actions...)
+	out = append(out, int64(len(c.Faults)))
+	for _, f := range c.Faults {
+		out = append(out, f[0], f[1])
+	}
+	out = append(out, int64(len(c.Refuse)))
+	out = append(out, c.Refuse...)
 	return out
 }
 
@@ -145,6 +153,8 @@ func DecSpec(r *sched.Tok) Spec {
 		c.Tiers = append(c.Tiers, t)
 	})
 	c.Actions = r.Ints()
+	r.List(func() { c.Faults = append(c.Faults, [2]int64{r.Next(), r.Next()}) })
+	c.Refuse = r.Ints()
 	return c
 }
 
@@ -180,6 +190,21 @@ func (p *recPlugin) OnSessionOpen(ssn *framework.Session) {
 	w := p.w
 	share := w.Rec.Share
 	jobNum := func(j api.JobID) int64 { return jobNumber(j) }
+	// like a predicates / extender plugin in front of a queue plugin: this handler reports Event.Err
+	// for the scripted (task, node) placements; it is registered FIRST, every handler still gets
+	// every allocate and deallocate callback
+	faults := map[[2]int64]bool{}
+	for _, f := range w.Spec.Faults {
+		faults[f] = true
+	}
+	ssn.AddEventHandler(&framework.EventHandler{
+		AllocateFunc: func(e *framework.Event) {
+			if faults[[2]int64{sched.ParseID(string(e.Task.UID)), sched.NodeRef(e.Task.NodeName)}] {
+				e.Err = fmt.Errorf("scripted: allocate callback fails for %s on %s", e.Task.Name, e.Task.NodeName)
+			}
+		},
+		DeallocateFunc: func(e *framework.Event) {},
+	})
 	ssn.AddEventHandler(&framework.EventHandler{
 		AllocateFunc: func(e *framework.Event) {
 			j := jobNum(e.Task.Job)
@@ -351,7 +376,11 @@ func NewWorld(spec Spec) *World {
 		sw.NodesP[n.ID] = ni
 		sw.NSpec[n.ID] = n
 	}
-	sw.Cache = &sched.ScriptedCache{SchedulerCache: mock, Snap: snap, RefuseBind: map[int64]bool{}, RefuseEvict: map[int64]bool{},
+	refuse := map[int64]bool{}
+	for _, t := range spec.Refuse {
+		refuse[t] = true
+	}
+	sw.Cache = &sched.ScriptedCache{SchedulerCache: mock, Snap: snap, RefuseBind: map[int64]bool{}, RefuseEvict: refuse,
 		OnEvict: func(t int64) { w.Trace = append(w.Trace, TraceEv{Kind: 3, Task: t, Action: w.curAct}) }}
 	sw.Rec = &sched.Recorder{Share: map[int64]*api.Resource{}, ErrFor: map[int64]bool{}}
 	for _, t := range tasks {
